@@ -3,7 +3,7 @@
 //! separate crates only so that they compile in parallel.
 
 pub use conv_p::pairs::{BOOL_FROM, FIX_TO_INT_FROM, FIX_TO_INT_LOSSY, FLOAT_FROM, FROM_PAIRS, INT_FROM, LOSSY_PAIRS, PAIRS};
-pub use conv_p::{pair_of, CMP_F32, CMP_F64, CMP_FF, CMP_FI, CMP_SAME, CONV_BF, CONV_FF, CONV_FI, CONV_IF, F32_TO_FIX, F64_TO_FIX, FIX_TO_F32, FIX_TO_F64, FLOAT_FROM_FIX, FROM_BOOL, FROM_FF, FROM_INT, INT_FROM_FIX, INT_LOSSY_FIX, LOSSY_FF, OP_NAMES};
+pub use conv_p::{pair_of, CMP_BF16, CMP_F16, CMP_F32, CMP_F64, CMP_FF, CMP_FI, CMP_SAME, CONV_BF, CONV_FF, CONV_FI, CONV_IF, F32_TO_FIX, F64_TO_FIX, FIX_TO_F32, FIX_TO_F64, FLOAT_FROM_FIX, FROM_BOOL, FROM_FF, FROM_INT, INT_FROM_FIX, INT_LOSSY_FIX, LOSSY_FF, OP_NAMES};
 use vcore::out::{drive, Outs};
 
 pub fn exec(op: u16, lay_idx: u16, lay2: u16, a: u128, b: u128) -> Outs {
